@@ -290,6 +290,41 @@ def register(E):
                 res.append((z3.And(c1, c2), z3.And(lo, hi)))
         return res
 
+    @model(r'^std::sync::OnceLock::(new|get|get_or_init|set)$|^std::cell::OnceCell::(new|get|get_or_init|set)$')
+    def _(E, st, callee, a, m):
+        """OnceLock / OnceCell as an optional value (single-threaded executions only)"""
+        op = m.group(1) or m.group(2)
+        if op == 'new':
+            return [(T, Obj('OnceLock', None))]
+        lk = d(st, a[0])
+        if not (isinstance(lk, Obj) and lk.kind == 'OnceLock'):
+            return None
+        base = a[0]
+        while isinstance(base, Ref):
+            nxt = E.read_ref(st, base)
+            if isinstance(nxt, Ref): base = nxt
+            else: break
+        if op == 'get':
+            if lk.data is None: return [(T, NONE)]
+            return [(T, some(E.alloc(st, lk.data)))]
+        if op == 'set':
+            if lk.data is not None: return [(T, err(a[1]))]
+            def eff(st2): E.store(st2, a[0], Obj('OnceLock', a[1]))
+            return [(T, ok(UNIT), eff)]
+        if lk.data is not None:
+            return [(T, E.alloc(st, lk.data))]
+        res = []
+        for c, o in E.call_value(st, a[1], []):
+            if o.kind != 'ret':
+                res.append((c, Panic(str(o.value)))); continue
+            def eff(st2, o=o):
+                adopt(st2, o.st)
+                val = E.deref(o.st, o.value)          # by value: the closure's frame is gone after the call
+                E.store(st2, a[0], Obj('OnceLock', val))
+                return E.alloc(st2, val)
+            res.append((c, None, eff))
+        return res
+
     def deref_via_trait(E, st, inner_ref, orig):
         raise Inconclusive('as_deref on newtype')
 
